@@ -253,3 +253,6 @@ Definition go_smap_put {V} (m : list (list N * V)) (k : list N) (v : V) : list (
 
 (* context.WithTimeout(ctx, d) as an emission of a unit whose output is the list of timers armed *)
 Definition go_arm (d : Z) : list Z := [d].
+
+(* tagged emissions of a unit whose output is a list of actions (tag, value) *)
+Definition go_tag (t v : Z) : list (Z * Z) := [(t, v)].
